@@ -1510,3 +1510,7 @@ V("r9-c16-directed-combinations", "C16", "fire", UT, _C16_DE, "    return [(i, j
 V("r9-c16-undirected-combinations", "C16", "silent", UT, _C16_UE, "    return sorted((j, i) for (i, j) in itertools.combinations(range(len(P)), 2) if P[i, j] != 0 and P[j, i] != 0)\n", what="undirected edges from unordered pairs: one representative each")
 V("r9-c16-weights-product", "C16", "silent", UT, _C16_EW, "    return {(i, j): W[i, j] for (i, j) in itertools.product(range(len(W)), repeat=2) if W[i, j] != 0}\n", what="edge weights as a dict comprehension over all ordered pairs")
 V("r9-c16-weights-product-transposed", "C16", "fire", UT, _C16_EW, "    return {(i, j): W[j, i] for (i, j) in itertools.product(range(len(W)), repeat=2) if W[i, j] != 0}\n", rule="PW.table", what="dict comprehension reading the transposed entry")
+
+for _i in [1, 2, 3, 4, 5, 6, 7, 8, 10, 11, 12, 13, 14, 15, 16, 17, 18, 19, 20]:
+    VARIANTS.append(dict(id="private-module-c%02d" % _i, prop="C%02d" % _i, expect="silent", rule=None, edits=[("@private_module",)],
+                         what="the small graph helpers of utils moved into a private module and imported back under their names"))
